@@ -38,6 +38,8 @@ def gen(ctx):
         closed = rng.random() < 0.45
         hi = rng.choice([3, 5, 8, 20])
         g = [[rng.randint(0, hi) for _ in range(C)] for _ in range(R)]
+        if rng.random() < 0.35:         # mostly empty table: many cells whose whole neighbourhood is empty
+            g = [[x if rng.random() < 0.12 else 0 for x in row] for row in g]
         if closed:
             for i in range(R):
                 for j in range(C):
